@@ -301,6 +301,7 @@ def run_tlc(
     cmd = [
         "java",
         f"-Xmx{heap}",
+        "-Xss256m",            # deep RECURSIVE folds over long traces are evaluated on the main thread
         "-XX:+UseParallelGC",
         f"-DTLA-Library={spec_dir}",
     ]
